@@ -377,7 +377,7 @@ func dataDeps(v ssa.Value) map[ssa.Value]bool {
 						case ssa.CallInstruction:
 							// the object's address is handed to a callee (b.WriteString(s), json.Unmarshal(data, &v)):
 							// the callee may write its other arguments into the object
-							if depth == 0 {
+							if depth == 0 && isLocalObject(root) {
 								for _, arg := range x.Common().Args {
 									if arg != a {
 										walk(arg)
@@ -399,6 +399,17 @@ func dataDeps(v ssa.Value) map[ssa.Value]bool {
 	}
 	walk(v)
 	return seen
+}
+
+// isLocalObject: the root of an address is an object created in this function (its address may be
+// handed to callees that fill it); parameters and call results are not — treating every call on a
+// receiver as a writer of the receiver would connect everything to everything.
+func isLocalObject(root ssa.Value) bool {
+	switch root.(type) {
+	case *ssa.Alloc, *ssa.MakeSlice, *ssa.MakeMap:
+		return true
+	}
+	return false
 }
 
 func addrRoot(a ssa.Value) ssa.Value {
